@@ -424,3 +424,76 @@ func (m *Model) RunNilErr(s *Sink, rule string) {
 		}
 	}
 }
+
+// RunIllegalSticky: the token for a character that starts no token is not consumed. The parser reports an ILLEGAL token
+// only where a statement starts (ParseProgram) and takes names, loop variables and object keys from the current token
+// without looking at its type; that is sound only because the lexer keeps returning the same ILLEGAL token until the
+// statement loop sees it. (If the lexer consumed it, `@reserve(#)` or `{{ {#: 1} }}` would be accepted without an error.)
+func (m *Model) RunIllegalSticky(s *Sink, rule string) {
+	newTok := m.Method("lexer", "Lexer", "newToken")
+	readChar := m.Method("lexer", "Lexer", "readChar")
+	if newTok == nil || readChar == nil {
+		s.Undecided(rule, "lexer.newToken", "-", "newToken/readChar not found")
+		return
+	}
+	illegal := int64(-1)
+	for v, n := range tokenConstNames {
+		if n == "ILLEGAL" {
+			illegal = v
+		}
+	}
+	var lexFns []*ssa.Function
+	for _, fn := range m.ModFns {
+		if fn.Blocks != nil && shortPkg(fnPkgPath(fn)) == "lexer" {
+			lexFns = append(lexFns, fn)
+		}
+	}
+	ci := m.newPassInfo(func(c ssa.CallInstruction) bool { return c.Common().StaticCallee() == readChar }, func(*ssa.Call) bool { return false }, lexFns, nil)
+	ci.may[readChar] = true
+	n := 0
+	for _, fn := range lexFns {
+		for _, b := range fn.Blocks {
+			for _, in := range b.Instrs {
+				c, ok := in.(*ssa.Call)
+				if !ok || c.Call.StaticCallee() != newTok || len(c.Call.Args) < 3 {
+					continue
+				}
+				k, isK := c.Call.Args[1].(*ssa.Const)
+				if !isK || k.Value == nil || k.Int64() != illegal {
+					continue
+				}
+				// only the "unknown character" token: its literal is built from the current character
+				lit := c.Call.Args[2]
+				if cv, isCv := lit.(*ssa.Convert); isCv {
+					lit = cv.X
+				}
+				if !strings.HasSuffix(fieldPathOf(lit), ".char") {
+					if _, isConst := lit.(*ssa.Const); isConst {
+						continue // "{{--", an unterminated string: the input is exhausted there
+					}
+					continue
+				}
+				n++
+				key := fnKey(fn) + "|the unknown-character token is not consumed"
+				consumes := false
+				for _, bb := range fn.Blocks {
+					for _, x := range bb.Instrs {
+						if cc, isC := x.(ssa.CallInstruction); isC {
+							if sc := cc.Common().StaticCallee(); sc != nil && ci.may[sc] {
+								consumes = true
+							}
+						}
+					}
+				}
+				if consumes {
+					s.Violation(rule, key, m.InstrPos(c), "%s consumes input around building the ILLEGAL token for an unknown character: the parser checks for ILLEGAL only where a statement starts and takes names and keys from the current token unchecked, so a consumed ILLEGAL token in such a position is accepted without any error", fnKey(fn))
+				} else {
+					s.OK(rule, key, m.InstrPos(c), "no call in %s can reach readChar: the same ILLEGAL token is returned until the statement loop reports it", fnKey(fn))
+				}
+			}
+		}
+	}
+	if n == 0 {
+		s.Undecided(rule, "lexer|unknown-character token", "-", "no newToken(ILLEGAL, string(l.char)) site found")
+	}
+}
